@@ -159,7 +159,17 @@ class CsrEnv:
     def resolve(self, eng, callee, args):
         if re.search(r"CertificateParams::insert_extended_key_usage$", callee):
             return find(self.m.fns, r"::insert_extended_key_usage$", r"^&mut CertificateParams$")
-        return self.orig_resolve(eng, callee, args)
+        r = self.orig_resolve(eng, callee, args)
+        return r if r is not None else self.generic_resolve(callee)
+
+    def generic_resolve(self, callee):
+        """a private helper of the crate under test that no contract names: its body is executed (unique match on the last path segment)"""
+        name = re.sub(r"::<.*", "", callee).split("::")[-1]
+        if not re.fullmatch(r"[a-z_][a-z0-9_]*", name) or name in ("new", "from", "into", "fmt", "clone", "default", "eq", "ne", "next", "iter", "len", "deref",
+                                                                    "try_from", "try_into", "from_der", "from_pem", "as_ref", "hash", "drop", "push", "get", "remove"):
+            return None
+        cands = [f for f in self.m.fns if f.name.split("::")[-1] == name and "{closure" not in f.name and not f.name.startswith("const ")]
+        return cands[0] if len(cands) == 1 else None
 
     def __call__(self, eng, callee, args, st):
         c = callee
@@ -176,7 +186,7 @@ class CsrEnv:
             st.events.append(("parse", path_of(args[0])))
             tup = Agg("tuple", [Cell(Opaque("rest")), Cell(Foreign("csr", "X509CertificationRequest"))])
             return result(z3.Bool("parse_ok"), tup, "parse")
-        if re.match(r"^Result::<.*>::map_err::<", c):
+        if re.match(r"^Result::<.*>::map_err::<", c) and not (len(args) == 2 and isinstance(args[1], Closure)):
             r = args[0]
             if isinstance(r, Opaque) and r.what == "result":
                 return one(Opaque("result", (r.data[0], r.data[1], Opaque("error", "mapped"))))
@@ -190,7 +200,7 @@ class CsrEnv:
             return one(Opaque("result", (ok, UNIT, Opaque("enum", (z3.Int("verify_error_kind"), None)))))
         if re.match(r"^Oid::<'_>::iter$", c):
             return one(Opt(z3.Bool("oid_arcs_fit_u64"), Opaque("oid-arcs", path_of(args[0]))))
-        m = re.match(r"^Result::<.*>::(or_else|and_then|map)::<", c)
+        m = re.match(r"^Result::<.*>::(or_else|and_then|map|map_err)::<", c)
         if m and len(args) == 2 and isinstance(args[1], Closure):
             # combinators with the closure executed in place; a symbolic Result forks into its Ok and its Err case
             r, clo, which = args[0], args[1], m.group(1)
@@ -209,13 +219,13 @@ class CsrEnv:
                 raise Unsupported(f"Result::{which} on " + type(r).__name__)
             out = []
             for (s, is_ok, payload) in cases:
-                if (which == "or_else") == is_ok:
-                    # untouched case: Ok for or_else, Err for and_then / map
+                if (which in ("or_else", "map_err")) == is_ok:
+                    # untouched case: Ok for or_else / map_err, Err for and_then / map
                     out.append((s, Agg("variant:0:Ok" if is_ok else "variant:1:Err", [Cell(payload)])))
                     continue
                 s.roots["__comb_clo"] = Cell(clo)
                 for (s2, v) in eng.call_closure(s.roots["__comb_clo"].v, [payload], s):
-                    out.append((s2, Agg("variant:0:Ok", [Cell(v)]) if which == "map" else v))
+                    out.append((s2, Agg("variant:0:Ok", [Cell(v)]) if which == "map" else (Agg("variant:1:Err", [Cell(v)]) if which == "map_err" else v)))
             return out
         if re.match(r"^Result::<.*>::ok$", c) and isinstance(args[0], Opaque) and args[0].what == "result":
             return one(Opt(args[0].data[0], args[0].data[1]))
@@ -266,6 +276,27 @@ class CsrEnv:
             a, b = deref(args[0]), deref(args[1])
             e = alg_term(a) == alg_term(b)
             return one(Z(z3.Not(e) if c.endswith("::ne") else e))
+        if re.match(r"^<Vec<.*> as Index<usize>>::index$", c) and isinstance(deref(args[0]), Opaque) and deref(args[0]).what == "sym-vec":
+            v_, i_ = deref(args[0]), args[1].e
+            n_ = self.m.len_of(v_)
+            if getattr(eng, "track_panics", False) and st.feasible(i_ >= n_):
+                eng.panics.append((list(st.pc) + [i_ >= n_], f"index {z3.simplify(i_)} into {path_of(v_)} which may be shorter", "?"))
+            st.pc.append(i_ < n_)
+            return one(Ref(Cell(Opaque("element", (v_.data, str(z3.simplify(i_)))))))
+        if re.match(r"^core::slice::<impl \[u8\]>::split_at$", c):
+            b_, k_ = deref(args[0]), args[1].e
+            total = self.m.len_of(b_)
+            if getattr(eng, "track_panics", False) and st.feasible(k_ > total):
+                eng.panics.append((list(st.pc) + [k_ > total], f"split_at({z3.simplify(k_)}) beyond the end of {path_of(b_)}", "?"))
+            st.pc.append(k_ <= total)
+            self.slice_len = getattr(self, "slice_len", {})
+            d1, d2 = f"{path_of(b_)}[..{z3.simplify(k_)}]", f"{path_of(b_)}[{z3.simplify(k_)}..]"
+            self.slice_len[d1], self.slice_len[d2] = k_, total - k_
+            return one(Agg("tuple", [Cell(Opaque("slice", d1)), Cell(Opaque("slice", d2))]))
+        if re.match(r"^core::slice::<impl \[u8\]>::len$", c) and isinstance(deref(args[0]), Opaque):
+            o_ = deref(args[0])
+            ln = getattr(self, "slice_len", {}).get(o_.data) if o_.what == "slice" else None
+            return one(Z(ln if ln is not None else self.m.len_of(o_)))
         if re.match(r"^<std::vec::IntoIter<.*> as Iterator>::next$", c) and isinstance(args[0], Ref) and isinstance(args[0].cell.v, ListIter):
             cell = args[0].cell
             it = cell.v
@@ -384,6 +415,10 @@ class CsrEnv:
             o = deref(args[0])
             return one(Z(z3.Bool(f"ext{o.data}_eku_other_empty")))
         r = self.orig_call(eng, callee, args, st)
+        if r is None and getattr(eng, "cur_ret_type", "?") == "bool" and self.resolve(eng, callee, args) is None:
+            # an unknown predicate of the environment: an arbitrary answer, the same for the same call text on the same path
+            self.m.fresh += 1
+            return one(Z(z3.Bool(f"env_predicate!{self.m.fresh}[{re.sub(r'::<.*', '', c)[-40:]}]")))
         return r
 
 
